@@ -16,7 +16,7 @@ DEFS = [None, None, '\\newcommand{\\zz}[1]{(#1)}', '\\newcommand{\\zzv}{\\verb|a
         '\\usepackage[german]{babel}\n',
         '\\newcommand{\\zzo}[2][d]{#1:#2}\n\\def\\zzd#1{<#1>}\n',
         '\\newtheorem{zzthm}{Zzthm}\n\\newcommand{\\zz}{ZZ\\zzo{a}}\n\\newcommand{\\zzo}[1]{[#1]}']
-EXTR = [None, None, None, 'footnote,section', 'zz', 'caption,footnote', 'foreignlanguage', 'zzo,cite']
+EXTR = [None, None, None, 'footnote,section', 'zz', 'caption,footnote', 'foreignlanguage', 'zzo,cite', 'LaTeX,par,TeX', 'item,ss,hfill,xspace', 'textbackslash,newline,qedhere']
 REPL = [None, None, ['a b & c\n'], ['Word & W W W\n', 'a &\n'], ['LATEXXXERROR & x\n']]
 
 DEF_FRAGMENTS = [
